@@ -13,7 +13,7 @@ class C08(Prop):
     gen_deps = ["Table"]
     harness = ("h-core", "hcore")
     nontrivial_rule = ("cases: seeded random sequences of write / write_all / write_vectored / write_fmt (fragment-controlled Display) / flush through AutoStream created with each of "
-                       "Never, AlwaysAnsi, Always and Auto (with the global choice fixed), over Vec<u8>, files and scripted boxed dyn writers (short writes and errors); every Never case "
+                       "Never, AlwaysAnsi, Always and Auto (with the global choice fixed), over Vec<u8>, files, the deprecated anstream::Buffer and scripted writers behind Box<dyn Write>, Box<dyn Write + Send> and Box<dyn Write + Send + Sync> (short writes and errors); formatted writes include argument-free format strings (`write!(s, 'literal')`) cut inside escape sequences; every Never case "
                        "is run again through StripStream directly and must give the identical inner history. Compared: per-call results, bytes delivered, inner call history, reported "
                        "mode, bytes returned by into_inner. non-trivial = distinct case whose operations carry at least one escape byte")
     trusted = ["std::io::Write default methods as transcribed in Spec/Io.v / Model/Stream.v (pass_op)"]
@@ -25,12 +25,22 @@ class C08(Prop):
         for i in range(n):
             ops = random_ops(rng)
             mode = MODES[i % len(MODES)]
-            wk = rng.choice(["boxed", "boxed", "vec", "file"])
-            script = random_script(rng) if wk == "boxed" else "-"
+            wk = rng.choice(["boxed", "boxed", "vec", "file", "send", "sync", "buffer"])
+            script = random_script(rng) if wk in ("boxed", "send", "sync") else "-"
             lines.append("strm %s %s %s %s" % (mode, wk, script, ops))
             if mode in ("never", "auto-never"):
                 lines.append("strm strip %s %s %s" % (wk, script, ops))
         yield "mixed-ops", lines
+        # formatted writes of argument-free format strings (`write!(s, 'literal')`) cut inside escape sequences
+        from .c06 import LITS, literal_ops
+        lines = []
+        for mode in ("never", "ansi", "auto-never"):
+            for a in LITS:
+                for b in LITS:
+                    lines.append("strm %s vec - f:%s,f:%s" % (mode, gen.hexs(list(a.encode())), gen.hexs(list(b.encode()))))
+        for i in range(n // 2):
+            lines.append("strm %s boxed %s %s" % (MODES[i % len(MODES)], random_script(rng) if i % 2 else "-", literal_ops(rng)))
+        yield "literal-formatted-writes", lines
         # the caller protocol over AutoStream::never(..).write: what arrives must be Spec/Strip of the input
         import itertools
         from .c06 import ENTRIES, SHORT_INPUTS
@@ -54,6 +64,24 @@ class C08(Prop):
                 cut = rng.choice([5, 6, 7])
             lines.append("lk8 %s %s %s %s" % (rng.choice(["never", "strip", "ansi", "always"]), rng.choice(["out", "err"]), gen.hexs(data[:cut]), gen.hexs(data[cut:])))
         yield "locked-std-streams", lines
+        # print! / println! / eprint! / eprintln! on the real stdout / stderr (child process, pipes): every call is a
+        # fresh AutoStream::auto stream, the mode comes from the environment (C09's decision, no terminal)
+        from .c06 import frag_split as _fs
+        envs = [[], [("NO_COLOR", "1")], [("CLICOLOR_FORCE", "1")], [("CLICOLOR", "0")], [("TERM", "dumb")], [("TERM", "xterm-256color")],
+                [("CLICOLOR_FORCE", "1"), ("NO_COLOR", "1")], [("CLICOLOR_FORCE", "0")], [("CLICOLOR_FORCE", "")], [("NO_COLOR", "")],
+                [("CLICOLOR_FORCE", "1"), ("TERM", "dumb")], [("CI", "true")], [("CLICOLOR", "1"), ("TERM", "xterm")]]
+        lines = []
+        for i in range(240 if tier == "thorough" else 80):
+            calls = []
+            for _ in range(rng.choice([1, 1, 2, 3])):
+                data = gen.grammar_stream(rng, pieces=rng.choice([1, 2, 3]), valid_utf8=True)
+                if i % 4 == 0:
+                    data = list(rng.choice(["a\x1b[1mb", "\x1b[31", "mred\x1b[0m", "\x1b]0;t", "x\x07y\u20ac"]).encode())
+                calls.append("/".join(gen.hexs(fr) for fr in _fs(rng, data)) if data else "-")
+            env = envs[i % len(envs)]
+            lines.append(" ".join(["pm", rng.choice(["out", "err"]), str(i // 2 % 2), ",".join(calls)] +
+                                  ["%s=%s" % (gen.hexs(list(k.encode())), gen.hexs(list(v.encode())) if v else "-") for k, v in env]))
+        yield "print-macros", lines
         # to_adapted_string (what print!/println! use under test): strips or forwards per the decided choice
         from .c06 import frag_split
         lines = []
@@ -88,7 +116,7 @@ class C08(Prop):
             res = results["impl-" + label]
             for l, r in zip(lines, res):
                 p = l.split(" ")
-                if p[1] in ("ansi", "always", "auto-ansi", "auto-always") and p[2] in ("vec", "file"):
+                if p[1] in ("ansi", "always", "auto-ansi", "auto-always") and p[2] in ("vec", "file"):   # (Buffer: std's default write_vectored)
                     want = ""
                     for op in p[4].split(","):
                         if op[:1] in ("w", "a"):
@@ -101,11 +129,36 @@ class C08(Prop):
                     got = "" if got == "-" else got
                     if (got != want or not r.endswith("| ansi")) and len(out) < 5:
                         out.append({"stream": name, "case": l, "build": label, "impl": r, "spec": "bytes forwarded unchanged: %s, mode ansi" % (want or "-"), "model": "-"})
+        # never / strip: with an accept-all writer the delivered bytes are Spec/Strip of the concatenated data
+        idx, asks = [], []
+        for i, l in enumerate(lines):
+            p = l.split(" ")
+            # (a vectored write may stop after its first non-empty buffer: those cases are left to the never == strip comparison)
+            if p[0] == "strm" and p[1] in ("never", "auto-never", "strip") and p[2] in ("vec", "file", "buffer") and ",v:" not in "," + p[4]:
+                parts = []
+                for op in p[4].split(","):
+                    if op[:1] in ("w", "a"):
+                        parts.append(op[2:])
+                    elif op[:1] in ("f", "v"):
+                        parts += op[2:].split("/")
+                parts = [x for x in parts if x and x != "-"]
+                idx.append(i)
+                asks.append("tas never %s" % ("/".join(parts) if parts else "-"))
+        if asks:
+            drv, _ = core.build_driver()
+            wants = core.run_parallel([drv, "spec"], asks, "C08strip")
+            for label, _ in ctx["impls"]:
+                res = results["impl-" + label]
+                for i, want in zip(idx, wants):
+                    got = res[i].split(" | ")[1] if " | " in res[i] else res[i]
+                    if got != want and len(out) < 5:
+                        out.append({"stream": name, "case": lines[i], "build": label, "impl": res[i], "spec": "delivered bytes = Spec/Strip of the data: " + want,
+                                    "model": results["model"][i]})
         return out
 
     def nontrivial(self, line, impl):
         p = line.split(" ")
-        return "1b" in (p[4] if p[0] == "strm" else (p[3] + p[4]) if p[0] == "lk8" else p[2])
+        return "1b" in (p[4] if p[0] == "strm" else (p[3] + p[4]) if p[0] == "lk8" else p[3] if p[0] == "pm" else p[2])
 
     def shrink_fields(self, line):
         return []
